@@ -22,6 +22,7 @@ RUN_WALL_CAP = 120
 
 PROFILE_MODULES = {
     "C03": "dsim.profiles.grid",
+    "C19": "dsim.profiles.names",
 }
 
 
@@ -232,8 +233,8 @@ def known_index(prop: str):
 
 
 TIERS = {
-    "quick": {"budget_s": 55, "max_runs": 100_000, "chunk": 6},
-    "thorough": {"budget_s": 900, "max_runs": 5_000_000, "chunk": 12},
+    "quick": {"budget_s": 50, "max_runs": 100_000, "chunk": 2},
+    "thorough": {"budget_s": 900, "max_runs": 5_000_000, "chunk": 8},
 }
 
 
@@ -288,7 +289,7 @@ def batch(prop: str, tier: str, base_seed: int, budget_s=None, max_runs=None, wo
             pending.add(pool.submit(_worker_chunk, prop, base_seed, tier, idxs))
             return True
 
-        for _ in range(workers * 2):
+        for _ in range(workers + 6):
             if not submit():
                 break
         while pending:
